@@ -1003,7 +1003,49 @@ func ruleFold(c *Ctx) {
 
 func ruleAlloc(c *Ctx) {
 	const R = "R01-alloc"
-	c.floor(R, 3)
+	c.floor(R, 4)
+	// the shared small-integer constants stand for +0, 1, 2, …: a value that compares equal to one of
+	// them but is not the same number (negative zero) must not be replaced by it (F56: 1/(z * -1) gave +inf)
+	if fn := c.need(R, "lua", "(*allocator).LNumber2I"); fn != nil {
+		g := c.P.G(fn)
+		var loads []ssa.Instruction
+		allInstrs(fn, func(in ssa.Instruction) {
+			if u, ok := in.(*ssa.UnOp); ok && u.Op == token.MUL {
+				if ia, ok := u.X.(*ssa.IndexAddr); ok {
+					if gl, ok := ia.X.(*ssa.Global); ok && gl.Name() == "preloads" {
+						loads = append(loads, in)
+					}
+				}
+			}
+		})
+		found := len(loads) > 0
+		// a sign test exists and, once it has found the sign bit set, no preloaded value is reachable
+		okc := false
+		allInstrs(fn, func(in ssa.Instruction) {
+			pk, n, ok := stdCall(in)
+			if !ok || pk != "math" || n != "Signbit" {
+				return
+			}
+			for _, r := range *in.(*ssa.Call).Referrers() {
+				iff, ok := r.(*ssa.If)
+				if !ok {
+					continue
+				}
+				reach := g.walk(iff.Block().Succs[0], 0, nil, func(x ssa.Instruction) bool {
+					for _, l := range loads {
+						if x == l {
+							return true
+						}
+					}
+					return false
+				})
+				if !reach {
+					okc = true
+				}
+			}
+		})
+		c.check(found && okc, R, "LNumber2I:preload-not-for-negative-zero", c.P.pos(fn.Pos()), "the shared constant is used only when the sign bit agrees", "LNumber2I replaces every value that compares equal to a small non-negative integer by the shared constant: negative zero (0 * -1) becomes +0, so 1/(z * -1) is +inf instead of -inf")
+	}
 	fptrs := c.P.Field("lua", "allocator", "fptrs")
 	if fptrs == nil {
 		c.und(R, "anchor:allocator.fptrs", "-", "field not found")
